@@ -237,6 +237,34 @@ def check_property(prop, tier, seed, relock=False):
             violations.append((v['key'], v['replay'], {'confirmed': v.get('confirmed', True)}))
         checker_errors.extend(extra_info.get('errors', []))
         undecided.extend(extra_info.get('undecided', []))
+        # lemma / schema obligations decided outside the path executor (still SMT or exact evaluation): counted like the others
+        for o in extra_info.get('obligations', []):
+            total += 1
+            agg[o['key']] = {'key': o['key'], 'function': o.get('function', 'lemma'), 'instances': 1, 'status': o['status'], 'aux': False,
+                             'seconds': o.get('seconds', 0.0), 'worst': None, 'solvers': {o.get('solver', 'z3-5.1'): 1}}
+            bb = by_backend.setdefault(o.get('solver', 'z3-5.1'), {'unsat': 0, 'sat': 0, 'unknown': 0})
+            bb['unsat' if o['status'] == 'discharged' else 'sat' if o['status'] == 'refuted' else 'unknown'] += 1
+            if o['status'] == 'refuted':
+                os.makedirs(os.path.join(HERE, 'replays'), exist_ok=True)
+                path = os.path.join(HERE, 'replays', f"{prop}_{o['key'].replace('/', '_').replace(':', '_').replace('[', '_').replace(']', '_')}.json")
+                json.dump({'property': prop, 'obligation': o['key'], 'solver_output': o.get('model'), 'note': 'lemma refuted; no program input'}, open(path, 'w'), indent=1)
+                violations.append((o['key'], path, {'confirmed': False}))
+            elif o['status'] != 'discharged':
+                undecided.append(o['key'])
+    # genuine defects recorded as open findings with a native witness script (findings/<name>.py exits 1 while the defect reproduces)
+    for f in open_f:
+        if f.get('property') == prop and f.get('witness'):
+            wpath = os.path.join(HERE, 'findings', f['witness'])
+            env = dict(os.environ)
+            env['PYTHONPATH'] = os.path.dirname(src.root) + os.pathsep + env.get('PYTHONPATH', '')
+            try:
+                pr_ = subprocess.run([VENV_PY, wpath], capture_output=True, text=True, timeout=600, env=env)
+                if pr_.returncode == 1:
+                    known_lines.append(f"KNOWN-FINDING: property={prop} {f['what']} [witness {f['witness']} reproduces on the real code]")
+                elif pr_.returncode != 0:
+                    checker_errors.append(f"finding witness {f['witness']} crashed: {pr_.stderr[-300:]}")
+            except Exception as e:
+                checker_errors.append(f"finding witness {f['witness']}: {e!r}")
     # ---- report
     discharged = sum(1 for a in agg.values() if a['status'] == 'discharged')
     for ln in known_lines:
